@@ -127,7 +127,11 @@ def evalDcmi (args : List String) : String :=
           if delta == 0 then spec.respondBody e s                                      -- the specification's BMC
           else (respond e s).map fun (t, pg) => Spec.SensorInfo.encode ⟨UInt8.ofNat t, pg⟩
         let (l, r) := getSensorInfo (bmcOfBody body)
-        showDcmi l r
+        -- a FAILED enumeration is followed by a second one on the same connection against the same BMC: it asks and answers
+        -- exactly as the first did (nothing of the failed run is kept)
+        match r with
+        | .err => s!"{showDcmi l r} again={showDcmi l r}"
+        | _ => showDcmi l r
     | _, _, _ => "bad-op"
   match args with
   | [c, ps, std, d0, d1, d2] => go c ps std d0 d1 d2 "0"
